@@ -22,6 +22,11 @@ def generate(rng, tier):
             # switches (publishes complete in a different order than the claims, bitmap words are reused lap after lap)
             yield R.gen_case(rng, tier, prod='multi', n=rng.choice([2, 4, 4, 8, 16]), laps=rng.choice([3, 4, 6]),
                              stick=rng.choice([0, 64, 128]), zero_prob=0.0)
+        elif k % 6 == 3 and k < 1800:
+            # 4-6 writer threads with single-event batches, hardly any stickiness: publication order ~ a random permutation of the
+            # claim order (partial releases that leave gaps, several inversions in a row)
+            yield R.gen_case(rng, tier, prod='multi', n=rng.choice([8, 16, 16, 64]), writers_n=rng.choice([4, 5, 6]),
+                             small_batches=True, stick=rng.choice([0, 16, 48]), zero_prob=0.0)
         else:
             yield R.gen_case(rng, tier)
 
